@@ -98,6 +98,17 @@ func c03Profiles(tier Tier) []*explore.Profile {
 		},
 		Menu: func(w *world.World) []world.Action {
 			acts := gatedCalls(uni.A0)
+			// the same calls carrying the flags and call types that exempt from *other* gates
+			// (freeze, pause, payability) - none of them exempts from the role
+			for _, g := range gatedCalls(uni.A0) {
+				f := g
+				f.ReturnAfterError = true
+				cb := g
+				cb.CallType = vmcommon.AsynchronousCallBack
+				te := g
+				te.CallType = vmcommon.ESDTTransferAndExecute
+				acts = append(acts, f, cb, te)
+			}
 			// every single role taken away, and the create role handed over (role-effect clause:
 			// whatever the position of the name in the stored list)
 			for _, r := range uni.AllRoles {
